@@ -838,55 +838,3 @@ theorem emitLimited_decodes_partial (opq : Nat → Rd Bytes) (m : Message) (hwf 
   | err k e' => rw [hr] at h; simp at h
   | panic s => rw [hr] at h; simp at h
 end HickoryVerif.C03
-
-namespace HickoryVerif.C02
-open HickoryVerif HickoryVerif.Name HickoryVerif.Wire HickoryVerif.C03
-
-/-! ### non-vacuity: a message satisfying `MsgWF`, encoded with compression, cut by a limit -/
-
-def nsExCom : Name := { labels := [[110, 115], [101, 120], [99, 111, 109]], fqdn := true }
-
-/-- `ex.com. A?` answered by `ex.com. NS ns.ex.com.` with the glue `ns.ex.com. A 10.0.0.1` -/
-def exMsg : Message :=
-  { md := { id := 4660, qr := true, op := 0, aa := true, tc := false, rd := true, ra := false, ad := false,
-            cd := false, rcode := 0 }
-    queries := [{ name := exCom, qtype := 1, qclass := 1 }]
-    answers := [{ name := exCom, rtype := 2, cls := 1, ttl := 60, rdata := .name nsExCom }]
-    authorities := []
-    additionals := [{ name := nsExCom, rtype := 1, cls := 1, ttl := 60, rdata := .a [10, 0, 0, 1] }]
-    signature := none
-    edns := none }
-
-theorem exMsg_wf : MsgWF exMsg := by
-  have wfEx : exCom.WF := by decide
-  have wfNs : nsExCom.WF := by decide
-  refine ⟨by decide, by decide, by decide, ?_, ?_, ?_, ?_, rfl, rfl⟩
-  · intro q hq
-    simp only [exMsg, List.mem_singleton] at hq
-    subst hq
-    exact ⟨wfEx, by decide, by decide⟩
-  · intro r hr
-    simp only [exMsg, List.mem_singleton] at hr
-    subst hr
-    exact ⟨⟨wfEx, by decide, by decide, by decide,
-      Or.inr ⟨rfl, Or.inl rfl, wfNs, trivial⟩⟩, by decide, by decide, by simp [RData.isUpdate]⟩
-  · intro r hr
-    simp [exMsg] at hr
-  · intro r hr
-    simp only [exMsg, List.mem_singleton] at hr
-    subst hr
-    exact ⟨⟨wfNs, by decide, by decide, by decide,
-      Or.inr ⟨rfl, ⟨rfl, rfl⟩, trivial, trivial⟩⟩, by decide, by decide, by simp [RData.isUpdate]⟩
-
-/-- unlimited: 52 octets, the NS target and the glue owner are compression pointers -/
-example : emitLimited exMsg 512 = .ok
-    [18, 52, 133, 0, 0, 1, 0, 1, 0, 0, 0, 1,   2, 101, 120, 3, 99, 111, 109, 0, 0, 1, 0, 1,
-     192, 12, 0, 2, 0, 1, 0, 0, 0, 60, 0, 5, 2, 110, 115, 192, 12,
-     192, 36, 0, 1, 0, 1, 0, 0, 0, 60, 0, 4, 10, 0, 0, 1] := by decide
-
-/-- under a limit of 50 octets the glue record is dropped: 41 octets, ARCOUNT 0, TC set -/
-example : emitLimited exMsg 50 = .ok
-    [18, 52, 135, 0, 0, 1, 0, 1, 0, 0, 0, 0,   2, 101, 120, 3, 99, 111, 109, 0, 0, 1, 0, 1,
-     192, 12, 0, 2, 0, 1, 0, 0, 0, 60, 0, 5, 2, 110, 115, 192, 12] := by decide
-end HickoryVerif.C02
-
